@@ -113,6 +113,27 @@ def gen_deep_case(rng, enum):
     return {"kind": enum + "/cfg-depth4/deep_spread", "grammar": g, "weights": w, "enum": enum, "params": params, "limit": 4000}
 
 
+def gen_arity3_case(rng, enum):
+    """A context-dependent (n_gram 2) grammar with a primitive of arity 3 whose 2nd and 3rd
+    argument positions are different non-terminals with different weights."""
+    I, B = [0, 10], [0, 11]
+    prims = [[100, I], [101, I], [102, B], [105, [1, B, [1, I, [1, I, I]]]]]
+    if rng.random() < 0.5:
+        prims.append([103, [1, I, I]])
+    if rng.random() < 0.4:
+        prims.append([106, [1, I, [1, I, [1, I, B]]]])
+    rng.shuffle(prims)
+    g = {"kind": "cfg", "prims": prims, "forbidden": [], "request": rng.choice([I, [1, I, I], [1, B, I]]), "n_gram": 2,
+         "const_types": [], "max_depth": rng.choice([2, 3, 3]), "min_var": 0, "rule_order": "asis"}
+    w = {"kind": rng.choice(["random", "random", "skewed"]), "seed": rng.randrange(10 ** 6)}
+    params = {}
+    if enum == "hs_bucket":
+        params["bucket_size"] = rng.choice([2, 3, 5, 8])
+    if enum == "cd":
+        params["k"], params["precision"] = rng.choice([(10, 1e-5), (40, 1e-3), (5, 1e-4)])
+    return {"kind": enum + "/cfg-arity3/" + w["kind"], "grammar": g, "weights": w, "enum": enum, "params": params, "limit": 4000}
+
+
 def gen_inf_case(rng, enum):
     """A recursive grammar (CFG.depth_constraint with a negative bound): only a prefix of the output is taken."""
     dsl = D.gen_dsl(rng, rng.choice(["F1", "F2", "F2", "F2"]))
